@@ -1273,3 +1273,108 @@ Proof.
   - unfold do_fetch. unfold Pg. brk; simpl; apply Pw_upd; auto; pg_side.
   - exact HP.
 Qed.
+
+Lemma Pg_other g w w0 : w0 <> w -> Pg g w0 -> Pg (step g w) w0.
+Proof.
+  intros Hne HP s' a Hn Ha.
+  pose proof (step_wev g w w0 Hne) as Hw. rewrite Hn in Hw. simpl in Hw.
+  destruct (nth_error (g_ws g) w0) as [s|] eqn:Hs; simpl in Hw; [|discriminate].
+  unfold wcore in Hw. inversion Hw as [[E1 E2 E3 E4 E5]]. rewrite E1 in Ha. rewrite E2, E4, E5.
+  apply (HP s a); auto.
+Qed.
+
+Definition invB (g : gst) : Prop := Eg g /\ (forall w, Pg g w) /\ Forall (fun c => c_locked c = true) (g_c06 g).
+
+Lemma step_invB g w : invB g -> invB (step g w).
+Proof.
+  intros [HE [HP HC]]. split; [|split].
+  - apply step_Eg; auto.
+  - intros w0. destruct (Nat.eq_dec w0 w) as [->|Hne]; [apply Pg_own; auto|apply Pg_other; auto].
+  - unfold step. destruct (get_w g w) as [s|] eqn:Hs; [|exact HC].
+    destruct (w_pc s) eqn:Hpc;
+      try (assert (H : fev w g (step g w)) by (apply (step_fev g w s); auto; congruence);
+           unfold step in H; rewrite Hs, Hpc in H; rewrite (proj2 H); exact HC); try exact HC.
+    unfold do_commit. simpl. apply Forall_app. split; [exact HC|].
+    destruct (allowance (w_op s)) as [a|] eqn:Ha; [|constructor].
+    constructor; [|constructor]. simpl. destruct (HP w s a Hs Ha) as [_ Hc]. apply Hc. rewrite Hpc. reflexivity.
+Qed.
+Theorem invB_all_schedules g sched : invB g -> invB (run g sched).
+Proof. apply run_inv. apply step_invB. Qed.
+
+(* ---------------------------------------------------------------- initial states *)
+Lemma nth_new_writers ops w s : nth_error (map new_writer ops) w = Some s -> exists o, s = new_writer o.
+Proof. rewrite nth_error_map. destruct (nth_error ops w); simpl; [|discriminate]. intros H. inversion H. eauto. Qed.
+
+Lemma tx_inv_init hash ops : tx_inv (init hash ops).
+Proof. split; simpl; [constructor|constructor|constructor|constructor|constructor|intros t []|intros t []]. Qed.
+Lemma log_inv_init hash ops : log_inv (init hash ops).
+Proof.
+  split; simpl; [constructor|constructor|constructor|intros _; constructor|intros _; constructor|intros _ x w []].
+Qed.
+Lemma invA_init hash ops : invA (init hash ops).
+Proof.
+  split; [intros r []|split; [|constructor]]. intros w s a Hn Ha Hl. simpl in Hn.
+  destruct (nth_new_writers _ _ _ Hn) as [o ->]. simpl in Hl. discriminate.
+Qed.
+Lemma tx_inv_reseat g ops : tx_inv g -> tx_inv (reseat g ops).
+Proof. intros [A B C D E F G]. split; simpl; auto; try constructor; try (intros t _ []). Qed.
+Lemma log_inv_reseat g ops : log_inv g -> log_inv (reseat g ops).
+Proof.
+  intros [A B C D E F]. split; simpl; auto; try (intros _; constructor; fail).
+  intros H x w Hx Hw. destruct (F H x w Hx Hw). split; auto.
+Qed.
+Lemma invA_reseat g ops : invA g -> invA (reseat g ops).
+Proof.
+  intros [HU _]. split; [exact HU|split; [|constructor]]. intros w s a Hn Ha Hl. simpl in Hn.
+  destruct (nth_new_writers _ _ _ Hn) as [o ->]. simpl in Hl. discriminate.
+Qed.
+(* the hypothesis of C06_conc: every bounded request's source row exists (committed) before the race *)
+Definition rows_exist (g : gst) (ops : list cop) : Prop :=
+  forall o a, In o ops -> allowance o = Some a -> exists r, vfind (g_vols g) (src_key o) = Some r /\ v_new r = false.
+Lemma invB_reseat g ops : rows_exist g ops -> invB (reseat g ops).
+Proof.
+  intros HR. split; [|split; [|constructor]].
+  - intros o a Hin Ha. simpl in Hin. rewrite map_map in Hin. simpl in Hin. rewrite map_id in Hin. apply (HR o a); auto.
+  - intros w s a Hn Ha. simpl in Hn. destruct (nth_new_writers _ _ _ Hn) as [o ->]. simpl in *.
+    split; [discriminate|]. intros Hc. apply start_pc_crit in Hc. congruence.
+Qed.
+
+(* ---------------------------------------------------------------- the statements, on the visible tables *)
+Definition nonempty (s : string) : bool := negb (String.eqb s "").
+Lemma lkeys_visible l :
+  flat_map lkeys (filter (fun x => match l_own x with None => negb (l_pend x) | Some _ => false end) l) =
+  filter nonempty (map l_ik (filter (fun x => match l_own x with None => negb (l_pend x) | Some _ => false end) l)).
+Proof.
+  induction l as [|x r IH]; simpl; auto. destruct (l_own x); simpl; auto. destruct (l_pend x) eqn:E; simpl; auto.
+  unfold lkeys at 1, nonempty at 1. rewrite E. simpl. destruct (String.eqb (l_ik x) ""); simpl; rewrite IH; reflexivity.
+Qed.
+Lemma tkeys_visible l :
+  flat_map tkeys (filter (fun x => match t_own x with None => negb (t_pend x) | Some _ => false end) l) =
+  filter nonempty (map t_ref (filter (fun x => match t_own x with None => negb (t_pend x) | Some _ => false end) l)).
+Proof.
+  induction l as [|x r IH]; simpl; auto. destruct (t_own x); simpl; auto. destruct (t_pend x) eqn:E; simpl; auto.
+  unfold tkeys at 1, nonempty at 1. rewrite E. simpl. destruct (String.eqb (t_ref x) ""); simpl; rewrite IH; reflexivity.
+Qed.
+
+Theorem unique_keys_committed g : log_inv g -> NoDup (filter nonempty (map l_ik (committed_logs g))).
+Proof. intros H. unfold committed_logs. rewrite <- lkeys_visible. apply nodup_flat_filter. apply (lg_keys _ _ _ _ _ H). Qed.
+Theorem unique_refs_committed g : tx_inv g -> NoDup (filter nonempty (map t_ref (committed_txs g))).
+Proof. intros H. unfold committed_txs. rewrite <- tkeys_visible. apply nodup_flat_filter. apply (tx_keys _ _ _ H). Qed.
+
+(* reachable states: after a serial prefix, any schedule of the writers *)
+Lemma outcome_tx_inv hash prefix writers sched : tx_inv (sched_outcome hash prefix writers sched).
+Proof. apply tx_inv_all_schedules. apply tx_inv_reseat. apply tx_inv_all_schedules. apply tx_inv_init. Qed.
+Lemma outcome_log_inv hash prefix writers sched : log_inv (sched_outcome hash prefix writers sched).
+Proof. apply log_inv_all_schedules. apply log_inv_reseat. apply log_inv_all_schedules. apply log_inv_init. Qed.
+Lemma outcome_invA hash prefix writers sched : invA (sched_outcome hash prefix writers sched).
+Proof. apply invA_all_schedules. apply invA_reseat. apply invA_all_schedules. apply invA_init. Qed.
+Lemma outcome_invB hash prefix writers sched :
+  rows_exist (after_prefix hash prefix writers) writers -> invB (sched_outcome hash prefix writers sched).
+Proof. intros H. apply invB_all_schedules. unfold after_prefix in *. apply invB_reseat. exact H. Qed.
+
+(* compatibility: the id part alone *)
+Definition ids_inv (g : gst) : Prop :=
+  (NoDup (map t_id (g_txs g)) /\ Forall (fun t => t_id t < g_ntx g) (g_txs g)) /\
+  (NoDup (map l_id (g_logs g)) /\ Forall (fun l => l_id l < g_nlog g) (g_logs g)).
+Lemma inv_ids g : tx_inv g -> log_inv g -> ids_inv g.
+Proof. intros [A B _ _ _ _ _] [C D _ _ _ _]. split; split; auto. apply sorted_nodup; auto. Qed.
